@@ -497,6 +497,36 @@ def rule_type(ctx: Ctx) -> RuleReport:
                     rep.ok({"lookup": f"{fi.qual}: {short(c, 50)}", "key": "lower-cased extension"})
                 else:
                     rep.fail(Finding("C14-TYPE", m.rel, fi.qual, "case-sensitive extension lookup: " + anorm(key, fi.node), f"`{short(c, 60)}` looks the file extension up as it is spelled in the package ({txt[:80]}): `IMG_0042.JPG` or `Logo.PNG` get the fallback type instead of image/jpeg / image/png", line=c.lineno))
+    # tables keyed by extension treat the two spellings of one format alike
+    ALIASES = [("jpg", "jpeg"), ("tif", "tiff"), ("htm", "html")]
+    for m in ctx.p.modules.values():
+        if "/tests/" in m.rel or not m.rel.startswith(X):
+            continue
+        for name, val in m.assigns.items():
+            v = ctx.folder.fold(m, val) if isinstance(val, ast.Dict) else None
+            if not (isinstance(v, dict) and v and all(isinstance(x, str) and "/" in x for x in v.values()) and all(isinstance(k, str) for k in v)):
+                continue
+            keys = {k.lstrip("."): k for k in v}
+            for a, b in ALIASES:
+                if (a in keys) != (b in keys):
+                    have, miss = (a, b) if a in keys else (b, a)
+                    rep.fail(Finding("C14-TYPE", m.rel, name, f"extension .{miss} missing", f"the content-type table {name} knows `.{have}` but not `.{miss}`: `image2.{miss}` gets the fallback type although it is the same format"))
+                elif a in keys and v[keys[a]] != v[keys[b]]:
+                    rep.fail(Finding("C14-TYPE", m.rel, name, f".{a} / .{b} differ", f"{name} maps .{a} to {v[keys[a]]} but .{b} to {v[keys[b]]}"))
+                elif a in keys:
+                    rep.ok({"table": name, "aliases": f".{a} = .{b}"})
+    # every manifest item declared as an image is an image: no allow-list of subtypes
+    ei = ctx.p.func(X + "epub_extractor.py", "_extract_images")
+    rep.unit(ei.key)
+    skips = [i for i in walk_own(ei.node) if isinstance(i, ast.If) and i.body and isinstance(i.body[-1], ast.Continue)]
+    listed = [i for i in skips if any(isinstance(x, ast.Compare) and isinstance(x.ops[0], (ast.In, ast.NotIn)) and isinstance(ctx.folder.fold(ei.module, x.comparators[0]), (set, frozenset, tuple, list)) for x in ast.walk(i.test))]
+    prefix = [i for i in skips if any(isinstance(x, ast.Call) and isinstance(x.func, ast.Attribute) and x.func.attr == "startswith" and x.args and ctx.folder.fold(ei.module, x.args[0]) == "image/" for x in ast.walk(i.test))]
+    if listed:
+        rep.fail(Finding("C14-TYPE", X + "epub_extractor.py", ei.qual, "image subtypes allow-list: " + anorm(listed[0].test, ei.node), f"EPUB images are taken only when `{short(listed[0].test, 60)}`: a manifest item with another image/* type (bmp, tiff, svg, the common non-standard image/jpg) is not returned and the images after it are numbered one lower", line=listed[0].lineno))
+    elif prefix:
+        rep.ok({"epub_images": "every manifest item whose media type starts with image/"})
+    else:
+        raise AnalysisError("C14-TYPE: the media-type test of the EPUB image reader was not found")
     if n < 3:
         raise AnalysisError(f"C14-TYPE: only {n} extension-keyed content-type lookups found (3 confirmed: docx, pptx, xlsx)")
     return rep
